@@ -93,6 +93,11 @@ def explore(ctx):
                 continue
             for n in range(len(order)):
                 if obs["draw"][n] != base["draw"][n]:
+                    norm = lambda v: [geom.cyc_canon(geom.merge_axis_lines(sg)) for sg in geom.recorded_to_segments(v)]
+                    if norm(obs["draw"][n]) == norm(base["draw"][n]):
+                        # the specialiser folds a straight axis-parallel run of two lines into one: same outline (O7)
+                        ctx.klass("collinear_axis_run_merged_by_specialiser")
+                        continue
                     ctx.spec_failure(dict(case, glyph=order[n]), "glyph #%d %r draws %r, baseline (optimizeCFF=0, CFF1) draws %r" % (
                         n, order[n], obs["draw"][n][:6], base["draw"][n][:6]))
                     break
